@@ -53,6 +53,21 @@ def inversion_native(vc):
         f = inv.marginal_likelihood
         gf[k] = (-f(theta + 2 * e) + 8 * f(theta + e) - 8 * f(theta - e) + f(theta - 2 * e)) / 12e-4
     vc.ensures("evidence_value_variant_agrees", abs(v2 - lml) <= 1e-9 * max(1.0, abs(lml)))
+    # results depend on the VALUES of theta only: the same array object changed in place between calls (what an optimiser
+    # does) gives what a fresh array with those values gives
+    work = theta.copy()
+    inv.calculate_posterior(work), inv.marginal_likelihood(work)
+    work += 0.3 * rng.normal(size=work.size)
+    fresh = work.copy()
+    m_a, c_a = inv.calculate_posterior(work)
+    e_a = inv.marginal_likelihood(work)
+    inv2 = GpLinearInverter(y=y, y_err=y_err, model_matrix=A, parameter_spatial_positions=pos,
+                            prior_covariance_function=type(K)(), prior_mean_function=type(M)())
+    m_b, c_b = inv2.calculate_posterior(fresh)
+    e_b = inv2.marginal_likelihood(fresh)
+    vc.ensures("no_dependence_on_earlier_calls_with_the_same_array",
+               bool(np.allclose(m_a, m_b, rtol=1e-10, atol=1e-12 * sc) and np.allclose(c_a, c_b, rtol=1e-10, atol=1e-12 * sc))
+               and abs(e_a - e_b) <= 1e-10 * max(1.0, abs(e_b)) and bool(np.allclose(inv.calculate_posterior_mean(work), m_b, rtol=1e-8, atol=1e-9 * sc)))
     vc.ensures("evidence_gradient_is_true_gradient", bool(np.allclose(g, gf, rtol=2e-4, atol=2e-5 * max(1.0, float(np.abs(gf).max())))))
 
 
